@@ -1,6 +1,8 @@
 import JediModel.Lemmas.Refs
 import JediModel.Lemmas.Rename
 import JediModel.Lemmas.RefsSound
+import JediModel.Lemmas.RefsMulti
+import JediModel.Gen.C05
 /-! # C05 — Rename rewrites exactly the references and preserves behaviour
 
 Two models meet here: `Tree` (what `rename` does to the text once the reference set is known)
@@ -160,6 +162,66 @@ theorem class_attr_not_partition :
     WF witnessClassAttr = true ∧ varOf witnessClassAttr 3 = varOf witnessClassAttr 0 ∧
     varOf witnessClassAttr 2 ≠ varOf witnessClassAttr 0 ∧
     2 ∈ refs witnessClassAttr 3 ∧ 2 ∉ refs witnessClassAttr 0 ∧ 3 ∈ refs witnessClassAttr 0 := by decide
+
+/-! ## several modules
+
+`Model/RefsMulti`: tokens are represented by what `_find_names` answers for them, modules by their
+token lists, `potential_modules` by the list of modules in scan order.  Whether the map of
+non-matching references is created once or once per module is read off the source by the
+translator (`Gen.C05.nonMatchingResetPerModule`); the theorems are stated over that constant, so
+they no longer build when the statement moves into the loop over modules. -/
+
+open JediModel.RefsMulti in
+/-- **module boundaries are invisible to the scan**: the found set after scanning the modules of
+`potential_modules` one by one is the found set of one scan over all their tokens in order —
+which file a token stands in plays no role for what is merged. -/
+theorem scan_modules_flat (mods : List (List (List Nat))) (st : ScanState) :
+    scanModules JediModel.Gen.C05.nonMatchingResetPerModule mods st = scanTokens mods.flatten st :=
+  scanModules_false_flat mods st
+
+open JediModel.RefsMulti in
+/-- **late merge across modules**: a same-spelled token `n` in module `m1` (what `_find_names`
+answers for it) that did not match when it was scanned is reported all the same as soon as a
+token `n'` of a module `m2` scanned LATER contains one of the defining names and shares a name
+with `n` — e.g. `from slow import helper` in `other.py`, and in `app/main.py`
+`try: from fast import helper / except ImportError: from slow import helper` with a use of
+`helper` whose goto lands on both definitions. -/
+theorem late_merge_across_modules (defining : List Nat) (ms1 ms2 ms3 : List (List (List Nat)))
+    (m1 m2 : List (List Nat)) (n n' : List Nat) (hn : n ∈ m1) (hn' : n' ∈ m2)
+    (hx : ∃ x ∈ n', x ∈ defining) (hk : ∃ k ∈ n, k ∈ n') :
+    ∀ a ∈ n, a ∈ refsMulti JediModel.Gen.C05.nonMatchingResetPerModule defining
+      (ms1 ++ m1 :: (ms2 ++ m2 :: ms3)) := by
+  unfold refsMulti
+  rw [scan_modules_flat]
+  obtain ⟨p1, s1, rfl⟩ := List.append_of_mem hn
+  obtain ⟨p2, s2, rfl⟩ := List.append_of_mem hn'
+  have e : (ms1 ++ (p1 ++ n :: s1) :: (ms2 ++ (p2 ++ n' :: s2) :: ms3)).flatten
+      = (ms1.flatten ++ p1) ++ n :: ((s1 ++ ms2.flatten ++ p2) ++ n' :: (s2 ++ ms3.flatten)) := by
+    simp
+  rw [e]
+  exact late_merge_tokens _ _ _ _ n n' hx hk
+
+open JediModel.RefsMulti in
+/-- the hypotheses are satisfiable and the statement has content: names 0 = `fast.helper`,
+1 = `slow.helper`; module 1 (`other.py`) holds the token `from slow import helper` = {2, 1};
+module 2 (`app/main.py`) the two import names {3, 0}, {4, 1} and a use {5, 0, 1}.  Created once,
+the map hands token 2 over when the use is scanned; created per module it is lost. -/
+theorem reset_per_module_loses_references :
+    2 ∈ refsMulti false [0] [[[2, 1]], [[3, 0], [4, 1], [5, 0, 1]]] ∧
+    2 ∉ refsMulti true [0] [[[2, 1]], [[3, 0], [4, 1], [5, 0, 1]]] := by decide
+
+/-- flow analysis is switched off exactly while the defining names are collected and switched on
+again (in a `finally` clause) before the scan: what `Refs.definingNames` (`findNames id`) and
+`Refs.scanStep` (`findNames lastOf`) transcribe -/
+theorem flow_analysis_off_then_restored :
+    JediModel.Gen.C05.flowAnalysisOffForDefiningNames = true ∧
+    JediModel.Gen.C05.flowAnalysisRestored = true := by decide
+
+example : ∀ a ∈ [2, 1], a ∈ JediModel.RefsMulti.refsMulti JediModel.Gen.C05.nonMatchingResetPerModule [0]
+    ([] ++ [[2, 1]] :: ([] ++ [[3, 0], [4, 1], [5, 0, 1]] :: [])) :=
+  late_merge_across_modules [0] [] [] [] [[2, 1]] [[3, 0], [4, 1], [5, 0, 1]] [2, 1] [5, 0, 1]
+    (by simp) (by simp) ⟨0, by simp, by simp⟩ ⟨1, by simp, by simp⟩
+
 
 /-! ## non-vacuity -/
 
